@@ -85,6 +85,18 @@ def make_jobs(ctx, nfn: int, wd: Path):
     jobs.append({"workdir": str(wd), "mod": "c06m_t", "helper": helper,
                  "sources": {helper: L.HELPER_SRC, "c06m_t": g0.header() + L.TEMPLATES},
                  "fns": L.template_names(), "seed": 0, "npoints": 14, "known_keys": ctx.known_keys})
+    # the library's own rate laws (mxlpy.fns), as shipped
+    try:
+        import ast as _ast
+        import mxlpy.fns as _fns
+
+        fn_names = [n.name for n in _ast.parse(Path(_fns.__file__).read_text()).body
+                    if isinstance(n, _ast.FunctionDef) and not n.name.startswith("_")]
+        jobs.append({"workdir": str(wd), "mod": "mxlpy.fns", "helper": helper, "external": True, "sources": {},
+                     "fns": fn_names, "seed": 2, "npoints": 12, "known_keys": ctx.known_keys})
+        ctx.extra_cov["mxlpy_fns_functions"] = len(fn_names)
+    except Exception as e:  # noqa: BLE001
+        ctx.notes.append(f"mxlpy.fns stratum unavailable: {e!r}")
     # the exhaustive control-flow stratum (seed-independent)
     bodies = L.exhaustive_bodies()
     ctx.extra_cov["exhaustive_control_flow_programs"] = len(bodies)
@@ -169,7 +181,9 @@ def judge_fn(ctx, job, res, resps):
     mask = [i for i, v in enumerate(py) if v not in ("undef", "nonnum", "inexact")]
     for ob, resp in zip(res["obs"], resps if resps is not None else [None] * len(res["obs"])):
         ren = ob["rename"]
-        case = {"sources": {job["helper"]: job["sources"][job["helper"]], job["mod"]: res["min_src"]},
+        case = {"sources": {} if job.get("external") else
+                {job["helper"]: job["sources"][job["helper"]], job["mod"]: res["min_src"]},
+                "external": bool(job.get("external")),
                 "mod": job["mod"], "helper": job["helper"], "fn": res["fn"],
                 "rename": ren, "points": res["points"], "src": res["src"]}
         status = ob["status"]
@@ -239,7 +253,7 @@ def judge_fn(ctx, job, res, resps):
             # inside the domain of C06_sound_partial nothing is excused
             finding = None
         verdict = ctx.judge(case, R, S, M, finding=finding, what=what)
-        if verdict == "violation" and not job.get("shrunk") and ctx.extra_cov.get("shrunk", 0) < 3:
+        if verdict == "violation" and not job.get("shrunk") and not job.get("external") and ctx.extra_cov.get("shrunk", 0) < 3:
             ctx.extra_cov["shrunk"] = ctx.extra_cov.get("shrunk", 0) + 1
             try:
                 sh = shrink_case(ctx, job, res, ob)
@@ -435,6 +449,7 @@ def replay(ctx, rp):
     wd = workdir(ctx)
     try:
         job = {"workdir": str(wd), "mod": case["mod"], "helper": case["helper"], "sources": case["sources"],
+               "external": case.get("external", False),
                "fns": [case["fn"]], "seed": 0, "npoints": 12, "known_keys": ctx.known_keys,
                "points": {case["fn"]: case["points"]}, "renamings": {case["fn"]: [case["rename"]]}}
         (res,) = L.evaluate_module(job)
